@@ -306,3 +306,17 @@ Inductive go_any : Type :=
 (* sort.Strings: bytewise order *)
 Definition go_string_lt (a b : list N) : bool :=
   match bcompare a b with Lt => true | _ => false end.
+
+(* m[k] = v on a map[string]V kept as an association list: replace the entry or add one *)
+Fixpoint go_map_set {V} (k : list N) (v : V) (m : list (list N * V)) : list (list N * V) :=
+  match m with
+  | [] => [(k, v)]
+  | (k', v') :: r => if beqb k' k then (k', v) :: r else (k', v') :: go_map_set k v r
+  end.
+
+(* snm.At(l, idxs): the elements at the given positions (panics when one is out of range) *)
+Fixpoint go_snm_at {A S R} (l : list A) (idxs : list Z) (k : list A -> res S R) : res S R :=
+  match idxs with
+  | [] => k []
+  | i :: r => go_index l i (fun x => go_snm_at l r (fun xs => k (x :: xs)))
+  end.
